@@ -463,6 +463,18 @@ func irFastMathFlags(olds []ast.FastMathFlag) []enum.FastMathFlag {
 
 // irFuncAttribute returns the IR function attribute corresponding to the given
 // AST function attribute.
+// irFuncAttributeOutsideGroup translates a function attribute of a function
+// header, global variable or call site. The spellings align=N and alignstack=N
+// are valid inside attribute group definitions only (LLVM rejects them
+// elsewhere, and the printer has no spelling for them there).
+func (gen *generator) irFuncAttributeOutsideGroup(old ast.FuncAttribute) ir.FuncAttribute {
+	switch old.(type) {
+	case *ast.AlignPair, *ast.AlignStackPair:
+		panic(fmt.Errorf("invalid function attribute %q; the key=value spelling of an alignment is valid in attribute group definitions only", old.LlvmNode().Text()))
+	}
+	return gen.irFuncAttribute(old)
+}
+
 func (gen *generator) irFuncAttribute(old ast.FuncAttribute) ir.FuncAttribute {
 	switch old := old.(type) {
 	case *ast.AttrString:
